@@ -523,9 +523,10 @@ class FatPath:
                 size=0)
             try:
                 parent._index[self.name] = entry
-            except OSError:
-                # No room for the entry in the parent: the cluster reserved
-                # for the new directory would otherwise be lost
+            except Exception:
+                # No room for the entry in the parent, or a name that cannot
+                # be stored: the cluster reserved for the new directory would
+                # otherwise be lost
                 fs.fat.mark_free(cluster)
                 raise
             self._index = fs.open_dir(cluster)
